@@ -2,6 +2,7 @@ package psim
 
 import (
 	"fmt"
+	"net/url"
 	"strings"
 )
 
@@ -11,31 +12,31 @@ import (
 // ---------------------------------------------------------------------------
 
 type GenCfg struct {
-	MaxStages    int
-	MaxPipelines int
-	MaxCalls     int // per pipeline
-	MaxParams    int
-	MaxLit       int // maximal literal collection size
-	Structs      bool
-	TypedMaps    bool
-	Files        bool // file-typed outputs (for the VDR profiles)
-	Splits       bool
-	MapCalls     bool
-	Disabled     bool
-	Preflight    bool
-	Local        bool
-	Resources    bool
-	Volatile     bool
-	Retain       bool
-	MapBias      bool // prefer typed-map map calls
-	RetainDup    bool // retain lists with several, partly repeated, entries
-	NestedMaps   bool // allow map calls inside map-called pipelines (see DESIGN.md: known findings)
-	NestedArrayMaps bool // allow them when every inner map call is over an array (works; D1 concerns keyed inner calls)
-	DisabledMappedPipeline bool // allow a disabled modifier on a map call of a pipeline
-	InvariantInMapped bool // allow calls that do not depend on the mapped element inside map-called pipelines
-	SplitDisabledOut bool // allow "split X.out" where call X has a disabled modifier
-	ExecStages   bool // some stages run without the monitor
-	AdvKeys      []string // adversarial typed-map keys
+	MaxStages              int
+	MaxPipelines           int
+	MaxCalls               int // per pipeline
+	MaxParams              int
+	MaxLit                 int // maximal literal collection size
+	Structs                bool
+	TypedMaps              bool
+	Files                  bool // file-typed outputs (for the VDR profiles)
+	Splits                 bool
+	MapCalls               bool
+	Disabled               bool
+	Preflight              bool
+	Local                  bool
+	Resources              bool
+	Volatile               bool
+	Retain                 bool
+	MapBias                bool     // prefer typed-map map calls
+	RetainDup              bool     // retain lists with several, partly repeated, entries
+	NestedMaps             bool     // allow map calls inside map-called pipelines (see DESIGN.md: known findings)
+	NestedArrayMaps        bool     // allow them when every inner map call is over an array (works; D1 concerns keyed inner calls)
+	DisabledMappedPipeline bool     // allow a disabled modifier on a map call of a pipeline
+	InvariantInMapped      bool     // allow calls that do not depend on the mapped element inside map-called pipelines
+	SplitDisabledOut       bool     // allow "split X.out" where call X has a disabled modifier
+	ExecStages             bool     // some stages run without the monitor
+	AdvKeys                []string // adversarial typed-map keys
 }
 
 type avail struct {
@@ -52,13 +53,13 @@ type gen struct {
 	// types that appear as stage outputs, to bias inputs towards connectable types
 	outTypes []Ty
 	// pipelines that contain a map call, directly or through sub-pipelines
-	hasMap map[string]bool
+	hasMap      map[string]bool
 	hasKeyedMap map[string]bool // pipeline (transitively) contains a map call over a typed map
 	// mapPipes[p]: the pipelines, reachable from pipeline p (p included), which
 	// directly contain a map call
-	mapPipes map[string]map[string]bool
+	mapPipes      map[string]map[string]bool
 	disabledCalls map[string]bool
-	pfStage *StageDef
+	pfStage       *StageDef
 }
 
 func (g *gen) name(prefix string) string {
@@ -822,6 +823,26 @@ func (g *gen) litKeys(n int) []string {
 		}
 		seen[k] = true
 		keys = append(keys, k)
+	}
+	if len(g.cfg.AdvKeys) > 0 && g.pick(4) == 0 {
+		// a key together with a second key which is the first one's encoding
+		// under one of the schemes a key might be passed through on its way to
+		// a directory or journal name: the two must stay two forks
+		k := keys[g.pick(len(keys))]
+		var twin string
+		switch g.pick(4) {
+		case 0:
+			twin = url.PathEscape(k)
+		case 1:
+			twin = url.QueryEscape(k)
+		case 2:
+			twin = strings.NewReplacer(".", "%2E", "/", "%2F", "%", "%25", " ", "%20", "_", "%5F").Replace(k)
+		default:
+			twin = strings.ToLower(url.PathEscape(k))
+		}
+		if !seen[twin] {
+			keys = append(keys, twin)
+		}
 	}
 	return keys
 }
